@@ -99,6 +99,15 @@ func zooCases(thorough bool) []zooCase {
 				}
 				idx = append(idx, fmt.Sprintf("CREATE INDEX zi%d ON z (%s)", si, strings.Join(parts, ", ")))
 			}
+			// partial indexes: every single column (the rowid alias included), rows excluded by a condition on the next column
+			for c := 0; c < 4; c++ {
+				nc := (c + 1) % 4
+				cond := QI(names[nc]) + " > 2" // NULL, 1, 2, -7 excluded (IS NOT NULL is not in sqlittle's grammar: such an index is not listed)
+				if nc == alias {
+					cond = QI(names[nc]) + " > 40"
+				}
+				idx = append(idx, fmt.Sprintf("CREATE INDEX zp%d ON z (%s%s) WHERE %s", c, QI(names[c]), mods[(c*2)%len(mods)], cond))
+			}
 			stmts := []string{create}
 			stmts = append(stmts, idx...)
 			stmts = append(stmts, zooInserts("z", 4, alias)...)
@@ -139,6 +148,9 @@ func zooCases(thorough bool) []zooCase {
 						parts = append(parts, names[c]+mods[(si+k+pi)%len(mods)])
 					}
 					stmts = append(stmts, fmt.Sprintf("CREATE INDEX zi%d ON z (%s)", si, strings.Join(parts, ", ")))
+				}
+				for c := 0; c < 4; c++ {
+					stmts = append(stmts, fmt.Sprintf("CREATE INDEX zp%d ON z (%s%s) WHERE %s", c, names[c], mods[(c*2+pi)%len(mods)], []string{"b <> 'k1'", "c > 10", "d <> 'd2'", "a > 0"}[c]))
 				}
 				// PK columns must be NOT NULL: use values without NULL for them
 				for i := 0; i < 14; i++ {
@@ -282,6 +294,12 @@ func zooEq(r *ev.Run, l *lite.DB, img []byte, zc zooCase, art map[string]interfa
 				var conds []string
 				for i, c := range keyCols[:plen] {
 					conds = append(conds, fmt.Sprintf("+%s COLLATE %s IS ?%d", QI(c.Name), c.Coll, i+1))
+				}
+				if ix.Partial {
+					if ix.Where == "" {
+						break
+					}
+					conds = append(conds, "("+ix.Where+")")
 				}
 				nix := " NOT INDEXED"
 				if t.WithoutRowid {
